@@ -47,6 +47,7 @@ type exec struct {
 	secure bool
 	dead   bool
 	climit uint16
+	roots  []common.Hash // roots committed into the current trie.Database and still referenced (commit op), oldest first
 }
 
 var quiet sync.Once
@@ -206,8 +207,32 @@ func (e *exec) Exec(op string) string {
 		if err != nil {
 			ans = "err-commit"
 		} else {
+			// keep the committed root alive in the node database (what the state layer does after every block)
+			e.tdb.Reference(r, common.EmptyHash)
+			e.roots = append(e.roots, r)
 			ans = "root=" + hx.Hex(r.Bytes())
 		}
+	case "cap":
+		// Database.Cap: flush the oldest cached nodes to disk until the cache is below the limit (its own batch loop)
+		if err := e.tdb.Cap(common.StorageSize(argInt(toks, "limit"))); err != nil {
+			ans = "err-cap"
+		} else {
+			ans = "ok"
+		}
+	case "gc":
+		// Database.Dereference of the oldest referenced root, unless it is also the newest one
+		if len(e.roots) >= 2 && e.roots[0] != e.roots[len(e.roots)-1] {
+			old := e.roots[0]
+			keep := false
+			for _, r := range e.roots[1:] {
+				keep = keep || r == old
+			}
+			e.roots = e.roots[1:]
+			if !keep {
+				e.tdb.Dereference(old)
+			}
+		}
+		ans = "ok"
 	case "reopen":
 		r, err := e.commit()
 		if err != nil {
@@ -220,6 +245,7 @@ func (e *exec) Exec(op string) string {
 				break
 			}
 			e.tdb = trie.NewDatabase(e.disk)
+			e.roots = nil
 		}
 		if _, ok := hx.Arg(toks, "cl"); ok {
 			e.climit = uint16(argInt(toks, "cl"))
@@ -378,6 +404,10 @@ func (P) Monitor(c *hx.CaseRun) []hx.Failure {
 		}
 		if strings.HasPrefix(ans, "panic") {
 			fail("no_panic", "panic:"+strings.TrimPrefix(ans, "panic "), strings.TrimPrefix(ans, "panic "), "panic on a well-formed API call: "+op)
+			continue
+		}
+		if strings.HasPrefix(ans, "err-") && c.Tags["cap"] {
+			fail("no_missing_node", "cap-flush-lost-nodes", "libs/trie/database.go:Cap", "nodes flushed by Database.Cap cannot be read back from the disk database: "+op+" -> "+ans)
 			continue
 		}
 		if strings.HasPrefix(ans, "err-") {
